@@ -122,10 +122,11 @@ CLAIMED = {
         category="proof",
         text="Lean 4 theorems: the residual is affine in x with the operator's entries (take_affine); if a CSR matrix carries exactly those "
              "entries and no pivot vanishes, the vector returned by the map-level LU solve has zero residual at every node (C16.lu_solve "
-             "composed with take_affine); the operator is injective in Dirichlet mode under ellipticity, so both strategies' solutions "
-             "coincide.  Tie: the real CustomLU direct solvers (give and take, 1 and 4 threads): exact residual of the returned solution with "
+             "composed with take_affine); in Dirichlet mode under ellipticity NO pivot vanishes (pivots_dirichlet: every leading principal "
+             "block of the operator is injective by C05, and C16.pivots_of_leading_injective — elimination without pivoting never meets a "
+             "zero pivot then), so solve_inverts_dirichlet needs no pivot hypothesis, and both strategies' solutions coincide.  Tie: the real CustomLU direct solvers (give and take, 1 and 4 threads): exact residual of the returned solution with "
              "the model operator, and — through the friend hook — every entry of the assembled CSR matrices against the operator.",
-        design_ref="DESIGN.md section 4, C04", note="non-vanishing pivots of the assembled matrix in grid order are a hypothesis (follows from C05 by an unformalised principal-minor argument).",
+        design_ref="DESIGN.md section 4, C04", note="across the origin (no Dirichlet inner boundary) non-vanishing pivots remain a hypothesis (C05 positive definiteness is only measured there); the absolute 1e-12 exit test of the LU (F7) is a separate hypothesis `tiny`.",
         technique="Lean 4 proof (linearity + LU correctness) + exact-residual correspondence and matrix read-out"),
     "C06": dict(
         category="proof",
